@@ -5,6 +5,7 @@
   tied to the code by the observable-log correspondence evdrv <-> evmain.
 -/
 import CimbaModel.Event.Lemmas
+import CimbaModel.Event.Concrete
 
 namespace CimbaModel.Props.C01
 open CimbaModel CimbaModel.KPQ CimbaModel.Generated CimbaModel.HashHeap.SpecOrders CimbaModel.Event
@@ -159,6 +160,32 @@ theorem pattern_agree (q : EvQ) (hi : EvInv q) (a s o : Nat) :
     cases hf : q.pending.find? (evMatch · a s o) with
     | none => rw [hf] at hne; exact absurd rfl hne
     | some e => exact ⟨e, List.mem_of_find?_eq_some hf, rfl, List.find?_some (p := (evMatch · a s o)) hf⟩
+
+/-! ### the same on the concrete hashheap
+
+The event queue of src/cmb_event.c is a hashheap. `EvC` is the kernel on the concrete hashheap model (which is tied
+to src/cmi_hashheap.c by exact-state correspondence, C02); it simulates the abstract kernel above step by step, so
+every theorem of this file transfers to it. -/
+
+/-- scheduling on the concrete queue issues the same handle as the abstract kernel and preserves the simulation,
+    across any capacity doubling of the queue -/
+theorem concrete_schedule_simulates {c : EvC} {q : EvQ} (hs : Sim c q) (hi : EvInv q) (act subj obj : Nat) (t pri : Int)
+    (ht : q.now ≤ t) (h64 : q.counter + 1 < 2 ^ 64) (hroom : c.hh.count < 2 ^ c.hh.exp ∨ c.hh.exp < 31) :
+    ∃ c' q' h, scheduleC c act subj obj t pri = .ok (c', h) ∧ schedule q act subj obj t pri = .ok (q', h) ∧
+      Sim c' q' ∧ h = q.counter + 1 :=
+  schedule_sim hs hi act subj obj t pri ht h64 hroom
+
+/-- dispatch on the concrete queue dequeues exactly the event the abstract kernel picks — the unique
+    (time, −priority, handle) minimum — and sets the same clock and current event; it never faults -/
+theorem concrete_dispatch_simulates {c : EvC} {q : EvQ} (hs : Sim c q) :
+    (c.hh.count = 0 → executeNextC c = .ok none ∧ executeNext q = none) ∧
+    (0 < c.hh.count → ∃ e c' q', executeNextC c = .ok (some (e, c')) ∧ executeNext q = some (KPQ.norm e, q') ∧ Sim c' q') :=
+  executeNext_sim hs
+
+/-- cancelling on the concrete queue gives the same answer and preserves the simulation -/
+theorem concrete_cancel_simulates {c : EvC} {q : EvQ} (hs : Sim c q) (h : Nat) (h0 : h ≠ 0) :
+    ∃ c', cancelC c h = .ok (c', (cancel q h).2) ∧ Sim c' { (cancel q h).1 with cancelled := q.cancelled } :=
+  cancel_sim hs h h0
 
 /-! non-vacuity: a concrete history satisfying the hypotheses, with a tie on time broken by priority -/
 example : ∃ q, run { now := 0 } [.sched 1 0 0 5 0, .sched 2 0 0 5 3, .sched 3 0 0 2 0, .cancel 3, .next] = .ok q ∧
